@@ -259,6 +259,22 @@ def replay(prop, path, relevant):
     w = json.load(open(path))['witness']
     if w.get('mode') in ('plain', 'absent'):
         return replay_plain(prop, path, w)
+    if w.get('mode') == 'plaintee':
+        from harness.checks import muxprops
+        tee = json.loads(w['pipe'])[0]
+        trs, out = muxprops.plain_tee_traces(tee, w['src'])
+        v, _ = C.validate_traces('PlainTrace', trs)
+        print('tee_map on a plain observable:', ' '.join(op_names([tee])), 'items:', json.dumps(w['src']))
+        bad = 0
+        for bi, (t, vv) in enumerate(zip(trs, v)):
+            print('  branch %d delivered %s and ended %s: %s' % (bi + 1, json.dumps(t['groups'][0]['plain']),
+                                                                t['groups'][0]['plainend'], vv))
+            bad += vv[0] == 'REJECT'
+        print('  the tee_map delivered', json.dumps(out['out']), out['end'])
+        if bad:
+            print('VIOLATION property=%s replay=%s clause=tee-plain-branch' % (prop, path))
+            return 1
+        return 0
     if w.get('mode') == 'framing':
         from harness.checks import c15, muxprops
         tr = w['trace']
